@@ -242,8 +242,8 @@ def run(tier):
     jobs = []
     for r in recs:
         whole = all(o['tag'] == 0 for o in r['rot'] + r['tra'] + r['scl'])
-        if whole or rnd.random() < frac:
-            jobs.append((r, C.seed(), whole and rnd.random() < psel))
+        if whole or C.pick(r, frac, 'c05-geo'):
+            jobs.append((r, C.seed(), whole and C.pick(r, psel, 'c05-phys')))
     for (r, _, ph), o in C.parallel_imap(check_record, jobs, chunksize=8):
         nops = len(r['rot']) + len(r['tra']) + len(r['scl'])
         chk.case(dict(r=r), nops >= 2, sample=dict(options=o['argv'], maps=r['maps']))
